@@ -36,7 +36,16 @@ META = {
 PRELUDE = (":- use_module(library(iso_ext)).\n:- use_module(library(lists)).\n:- use_module(library(atts)).\n"
            ":- attribute a/1.\nverify_attributes(_,_,[]).\n"
            "c11eq(X,X).\nc11v1(_).\nc11v2(_,_).\nc11v3(_,_,_).\n"
-           "c11obs(Vs, As, Ks, o(Vc, Ats, Bs)) :- copy_term(Vs, Vc, _), c11atts(As, Ats), c11bbs(Ks, Bs).\n"
+           # the observation describes the variables with ==/2 (v(I) = I-th distinct variable in order of first occurrence); it
+           # does not use copy_term/2,3, which mishandles stack variables (reported separately)
+           "c11obs(Vs, As, Ks, o(Ds, Ats, Bs)) :- c11descs(Vs, [], _, Ds), c11atts(As, Ats), c11bbs(Ks, Bs).\n"
+           "c11descs([], S, S, []).\n"
+           "c11descs([T|Ts], S0, S, [D|Ds]) :- c11desc(T, S0, S1, D), c11descs(Ts, S1, S, Ds).\n"
+           "c11desc(T, S0, S, D) :- var(T), !, c11idx(S0, T, 0, I, S), D = v(I).\n"
+           "c11desc(T, S, S, T) :- integer(T), !.\n"
+           "c11desc(T, S0, S, D) :- T =.. [F, X], c11desc(X, S0, S, DX), D =.. [F, DX].\n"
+           "c11idx([], T, N, N, [T]).\n"
+           "c11idx([V|Vs], T, N, I, [V|S]) :- ( V == T -> I = N, S = Vs ; N1 is N + 1, c11idx(Vs, T, N1, I, S) ).\n"
            "c11atts([], []).\n"
            "c11atts([A|As], [O|Os]) :- ( var(A) -> ( get_atts(A, a(X)) -> O = a(X) ; O = n ) ; O = b ), c11atts(As, Os).\n"
            "c11bbs([], []).\n"
@@ -492,7 +501,7 @@ class BadObs(Exception):
 
 
 def enc_oterm(t):
-    if t[0] == "var": return [0, t[1]]
+    if t[0] == "cmp" and t[1] == "v" and len(t[2]) == 1 and t[2][0][0] == "int": return [0, t[2][0][1]]
     if t[0] == "int" and t[1] >= 0: return [1, t[1]]
     if t[0] == "cmp" and t[1] in ("s1", "s2") and len(t[2]) == 1: return [2, int(t[1][1])] + enc_oterm(t[2][0])
     raise BadObs(str(t))
@@ -509,7 +518,6 @@ def obs_from_answer(ans):
             if it[0] != "cmp" or it[1] != "o" or len(it[2]) != 3:
                 return None
             vs, _ = terms.list_view(it[2][0])
-            vs = terms.number_vars(vs)
             ats, _ = terms.list_view(it[2][1])
             bs, _ = terms.list_view(it[2][2])
             out.append(len(vs))
@@ -582,7 +590,7 @@ PROBES = [
 
 def run(ctx):
     rng = ctx.rng
-    want = ctx.scale(3000, 100000)
+    want = ctx.scale(4000, 40000)
     cases, segs_of, seen = [], {}, set()
     discarded = {}
     dist = {"constructs": {}, "ops": {}, "stats": {}, "observations": 0}
@@ -722,7 +730,7 @@ def run(ctx):
                  "structures holding a new variable, variable-variable unifications (older/newer both ways), put_atts/-, bb_put, bb_b_put, "
                  "bb_get, nested (depth <= 3) in \\+, \\+\\+, if-then-else (failing condition / failing then-branch), findall/3 (failing "
                  "and multi-solution), catch/3+throw, 2- and 3-way disjunctions with forced and natural failures, disjunctions that leave a "
-                 "choice point; an observation (copy of all variables, attribute of each attributed variable, bb_get of each key) after "
+                 "choice point; an observation (a description of all variables by ==/2, var/1 and their values, the attribute of each attributed variable, bb_get of each key) after "
                  "every top-level construct; each case run as a compiled clause (stack and heap variables) and as a query, both "
                  "compared in Coq with the model run on the operation sequence the Python interpreter derives from the goal tree; "
                  "non-trivial = distinct goal text in which at least one backtracking step actually reset an older cell, restored an "
